@@ -152,7 +152,33 @@ func judge(sc *Scenario, res *result) (misses []miss, classes []string) {
 			cls := statusClass(sc.Proto, first.Status)
 			outcome = "mosn:" + cls
 			elapsed := first.At.Sub(res.T0)
+			// a reply generated by MOSN (no upstream marker, no upstream body) that carries exactly the status an upstream
+			// put on the wire a moment before: the late upstream status leaked into the error reply MOSN was about to send
+			lateStatus := false
+			for _, a := range res.Arrivals {
+				want := 200
+				if a.Step.Kind == "reply5xx" {
+					want = a.Step.Status
+				}
+				if sc.Proto == "Http1" && (a.Wrote == "full" || a.Wrote == "full?") && want == first.Status && !a.DoneAt.IsZero() &&
+					first.At.Sub(a.DoneAt) < 20*time.Millisecond && (cls == "" || cls == "overflow") {
+					lateStatus = true
+				}
+			}
+			if lateStatus {
+				cls = "leaked"
+				add(true, "error-reply-carries-status-of-late-upstream-reply:Http1", "MOSN's own reply (request headers echoed, no upstream marker, body %q) has status %d, the status of an upstream reply written %d us earlier",
+					first.Body, first.Status, first.AtUs-func() int64 {
+						for _, a := range res.Arrivals {
+							if a.Wrote == "full" || a.Wrote == "full?" {
+								return a.DoneUs
+							}
+						}
+						return 0
+					}())
+			}
 			switch cls {
+			case "leaked":
 			case "":
 				add(true, fmt.Sprintf("unexplained-status:%s:%d", sc.Proto, first.Status), "MOSN answered with status %d which no injected event maps to", first.Status)
 			case "no-route":
@@ -332,6 +358,25 @@ func hangCause(sc *Scenario, res *result) string {
 	}
 	if stalledOnly && sc.TryMs == 0 && (sc.Post || sc.Proto != "Http1") && !sc.allLive() {
 		return "request-with-body:first-attempt-failed-before-body-was-sent:no-per-try-timeout"
+	}
+	// an upstream failure and a timer of the same attempt fired within 5 ms of each other (failure near the attempt's per-try
+	// timeout, or a failure that is not retried near the global timeout)
+	tt := time.Duration(sc.TryMs) * time.Millisecond
+	for _, a := range res.Arrivals {
+		switch a.Step.Kind {
+		case "reset", "partial-reset", "fin":
+		default:
+			continue
+		}
+		if a.DoneAt.IsZero() {
+			continue
+		}
+		if d := a.DoneAt.Sub(a.At.Add(tt)); tt > 0 && d > -5*time.Millisecond && d < 5*time.Millisecond {
+			return "upstream-failure-raced-timeout-of-same-attempt"
+		}
+		if d := a.DoneAt.Sub(res.T0.Add(gt)); d > -5*time.Millisecond && d < 5*time.Millisecond && !(sc.RetryOn && (a.Step.Kind != "fin" || sc.Proto != "Http1")) {
+			return "upstream-failure-raced-timeout-of-same-attempt"
+		}
 	}
 	// a retry was being set up at the moment the global timer fired: an upstream failure that gets retried was
 	// delivered within 5 ms of the global timeout, or the whole process was stalled across the global timeout
